@@ -178,6 +178,10 @@ def render_listener(prog, role):
                 body.append(render_cb(prog, cbid))
     if init:
         body.insert(0, "    def __init__(self):\n" + "".join(init))
+    if prog.get("listener_eq"):
+        # value-based equality: two listener objects of this class compare (and hash) equal
+        body.append("    def __eq__(self, other):\n        return type(other) is type(self)\n"
+                    "    def __hash__(self):\n        return 7\n")
     if not body:
         body.append("    pass\n")
     return "\n".join(pre) + ("\n" if pre else "") + f"class {name}:\n" + "\n".join(body) + "\n"
